@@ -87,6 +87,9 @@ B('C08.dns-label-limit-too-strict', ['C01', 'C08'], [(P + 'dnsrec/record.py', "p
 N('benign.dns-label-limit-by-length-octet', [(P + 'dnsrec/record.py', "            if parser.parsed_length - label_offset - 1 > 63 or '.' in label:", "            if six.indexbytes(parsable, label_offset) >= 64 or label.find('.') >= 0:")])
 B('C02.dns-label-octet-read-before-it-is-known-to-exist', ['C02'], [(P + 'dnsrec/record.py', "            label_offset = parser.parsed_length\n            parser.parse_string('label', 1, encoding='idna')\n", "            label_offset = parser.parsed_length\n            if six.indexbytes(parsable, label_offset) >= 64:\n                raise InvalidValue(parsable, cls, 'labels')\n            parser.parse_string('label', 1, encoding='idna')\n")], mention='indexbytes')
 B('C05.sni-name-decoded-only', ['C05'], [(P + 'tls/extension.py', "            six.ensure_binary(host_name, 'idna')\n", "")], mention='TlsExtensionServerNameClient@accepted')
+B('C05.dnskey-zero-exponent-accepted', ['C05'], [(P + 'dnsrec/record.py', "        if not key_parser['public_exponent']:\n", "        if key_parser['public_exponent'] < 0:\n")], mention='zero-exponent')
+B('C08.dsa-size-parameter-floored', ['C05', 'C08'], [(P + 'dnsrec/record.py', "        size_parameter = max(0, (key_size - 64 + 7) // 8)", "        size_parameter = max(0, (key_size - 64) // 8)")], mention='short-prime')
+N('benign.dsa-size-parameter-by-negated-floor', [(P + 'dnsrec/record.py', "        size_parameter = max(0, (key_size - 64 + 7) // 8)", "        size_parameter = max(0, -((64 - key_size) // 8))")])
 B('C02.unsupported-width', ['C02'], [(P + 'tls/extension.py', "        parser.parse_numeric('record_size_limit', 2)", "        parser.parse_numeric('record_size_limit', 5)")], props=['C02'])
 B('C02.raw-index', ['C02'], [(P + 'tls/extension.py', "        if parser['extension_data']:\n            raise InvalidValue(parser['extension_data'], cls)",
                              "        if parser['extension_data'][0]:\n            raise InvalidValue(parser['extension_data'], cls)")])
